@@ -33,7 +33,7 @@ LEVEL_NOTE = ('trusted base: release mpmath 1.3.0 + the tree at 3p+300 bits agre
               'in both and at every precision is not seen unless the cell has a defining-relation oracle; inputs outside the '
               'listed cells are not covered')
 TECHNIQUE = 'runtime reference-model monitor: consensus accuracy oracle on every observed special-function value'
-SHARD_TIMEOUT = {'quick': 1800, 'thorough': 7200}     # wall watchdog only; the shards stop on their own CPU budget
+SHARD_TIMEOUT = {'quick': 1800, 'thorough': 21600}     # wall watchdog only; the shards stop on their own CPU budget
 NSHARDS = 16
 
 # value = n / 2^256
@@ -404,7 +404,9 @@ for _c in TABLE['zeta.derivative']:
 
 
 def shards(tier, seed):
-    return [{'nshards': NSHARDS, 'budget_s': 330 if tier == 'quick' else 2700} for _ in range(NSHARDS)]
+    # thorough: 0.6 x the default thorough count per cell (the family is the most expensive of the three)
+    return [{'nshards': NSHARDS, 'budget_s': 330 if tier == 'quick' else 2700, 'scale': 1.0 if tier == 'quick' else 0.6}
+            for _ in range(NSHARDS)]
 
 
 def run_shard(shard, rec):
